@@ -294,16 +294,13 @@ def rule_partition(report, prog):
     report.check(not t3model.read_verdicts(prog), 'C01-R4', key(f.qname, 'padding stripped to Ln'), f.loc(),
                  'read data is not cut to the announced length')
     # Type 4
+    from . import t4model
     rd = prog.func('nfc.tag.tt4.Type4Tag.NDEF._read_ndef_data')
-    okk = False
-    for l in walk_no_nested(rd.node):
-        if isinstance(l, ast.While) and norm(l.test) == 'len(data) < nlen':
-            body = [norm(s) for s in live(l.body) if not isinstance(s, ast.If)]
-            okk = body in (['offset = self._nlen_size + len(data)', 'data += self._read_binary(offset, nlen - len(data))'],
-                           ['offset = self._nlen_size + len(data)', 'part = self._read_binary(offset, nlen - len(data))', 'data += part'])
+    rp, rn = t4model.reader_offsets(prog)
     n += 1
-    report.check(okk, 'C01-R4', key(rd.qname, 'reads continue at nlen_size + bytes so far, remaining size'), rd.loc(),
-                 'Type 4 read loop no longer appends consecutive chunks')
+    report.check(not rp, 'C01-R4', key(rd.qname, 'reads continue at nlen_size + bytes so far, remaining size'), rd.loc(),
+                 'Type 4 reader folded against a file does not return the message: %s' % '; '.join(rp[:2]),
+                 detail='folded for %d (NLEN width, capacity, announced length, MLe) points; the message must be the file content behind the length field' % rn)
     from . import t4model
     f = prog.func('nfc.tag.tt4.Type4Tag.NDEF._write_ndef_data')
     v = t4model.verdicts(prog)
